@@ -166,7 +166,8 @@ def pickle_state(ctx):
         if isinstance(v, ast.Call) and is_name(v.func, 'tuple'):
             v = v.args[0]
         ok = isinstance(v, ast.BinOp) and isinstance(v.op, ast.Add) and isinstance(v.left, ast.Tuple) and len(v.left.elts) == 1 \
-            and isinstance(v.right, ast.Subscript) and isinstance(v.right.slice, ast.Slice) and v.right.slice.upper is None
+            and isinstance(v.right, ast.Subscript) and isinstance(v.right.slice, ast.Slice) and v.right.slice.upper is None \
+            and isinstance(v.right.slice.lower, ast.Constant) and v.right.slice.lower.value == w.offset and v.right.slice.step is None
         if ok:
             tag = v.left.elts[0]
             ok = isinstance(tag, ast.Subscript) and isinstance(tag.slice, ast.Subscript) and isinstance(tag.slice.slice, ast.Constant) \
@@ -179,6 +180,8 @@ def pickle_state(ctx):
         v = st[0].value
         ok = isinstance(v, ast.BinOp) and isinstance(v.left, ast.Tuple) and len(v.left.elts) == 1 and isinstance(v.right, ast.Subscript) \
             and is_name(v.right.value, su.params[1]) and isinstance(v.left.elts[0], ast.Subscript) \
+            and isinstance(v.right.slice, ast.Slice) and isinstance(v.right.slice.lower, ast.Constant) \
+            and v.right.slice.lower.value == w.offset and v.right.slice.upper is None and v.right.slice.step is None \
             and norm(v.left.elts[0].slice) == '%s[0]' % su.params[1]
     ctx.ob(ok, su, 'restored ops = (root for state[0],) + every step: %s' % [norm(x) for x in st])
     ctx.floor(3)
